@@ -11,6 +11,7 @@ import (
 	"go/constant"
 	"go/token"
 	"go/types"
+	"sort"
 	"strings"
 
 	"golang.org/x/tools/go/ssa"
@@ -251,4 +252,82 @@ func c01ReusedBuffers(c *Ctx, r *Report) {
 		}
 	}
 	r.Floor("R01.3h", "field buffers re-sliced to a computed length and handed on", n, 1)
+}
+
+// R01.9: the CSV and TSV line readers agree on the byte-order mark. The
+// functions stored in the CSV-lite and TSV readers' batch-getter slots
+// (explicit and implicit header, two each) are siblings: each looks for the
+// UTF-8 byte-order mark at the start of the text, as the CSV reader does
+// through its BOM-stripping io.Reader.
+func c01BOMSiblings(c *Ctx, r *Report) {
+	r.Rule("R01.9", "the CSV and TSV line readers agree on the byte-order mark: every function stored in a batch-getter slot of the CSV-lite and TSV readers (func types recordBatchGetterCSV, recordBatchGetterTSV) tests its text for the prefix EF BB BF (strings.HasPrefix / TrimPrefix / CutPrefix with that constant, directly or in a function it calls) — otherwise a file saved by a spreadsheet comes back with the mark inside the first field name")
+	p := c.Pkg("pkg/input")
+	if p == nil {
+		r.Undecided("R01.9", "pkg/input", "", "package not loaded")
+		return
+	}
+	sibs := map[*ssa.Function]string{}
+	for _, fn := range c.ModuleFunctions() {
+		if fn.Pkg == nil || fn.Blocks == nil || fn.Pkg.Pkg != p.Types {
+			continue
+		}
+		for _, b := range fn.Blocks {
+			for _, in := range b.Instrs {
+				st, ok := in.(*ssa.Store)
+				if !ok {
+					continue
+				}
+				tn := st.Val.Type().String()
+				if !(strings.HasSuffix(tn, "input.recordBatchGetterCSV") || strings.HasSuffix(tn, "input.recordBatchGetterTSV")) {
+					continue
+				}
+				v := st.Val
+				if ct, ok := v.(*ssa.ChangeType); ok {
+					v = ct.X
+				}
+				if f, ok := v.(*ssa.Function); ok {
+					sibs[f] = tn[strings.LastIndex(tn, ".")+1:]
+				} else {
+					r.Undecided("R01.9", SSAName(fn)+": batch getter stored", c.Rel(st.Pos()), "the stored getter is not a named function")
+				}
+			}
+		}
+	}
+	var looks func(f *ssa.Function, depth int) bool
+	looks = func(f *ssa.Function, depth int) bool {
+		if f == nil || f.Blocks == nil || depth > 1 {
+			return false
+		}
+		for _, b := range f.Blocks {
+			for _, in := range b.Instrs {
+				call, ok := in.(*ssa.Call)
+				if !ok {
+					continue
+				}
+				cn := CalleeName(&call.Call)
+				if cn == "strings.HasPrefix" || cn == "strings.TrimPrefix" || cn == "strings.CutPrefix" {
+					if k, ok := call.Call.Args[1].(*ssa.Const); ok && k.Value != nil && k.Value.Kind() == constant.String && constant.StringVal(k.Value) == "\xef\xbb\xbf" {
+						return true
+					}
+				}
+				if sc := call.Call.StaticCallee(); sc != nil && IsModuleFunc(sc) && looks(sc, depth+1) {
+					return true
+				}
+			}
+		}
+		return false
+	}
+	var names []string
+	byName := map[string]*ssa.Function{}
+	for f := range sibs {
+		names = append(names, SSAName(f))
+		byName[SSAName(f)] = f
+	}
+	sort.Strings(names)
+	for _, nm := range names {
+		f := byName[nm]
+		r.Check(looks(f, 0), "R01.9", nm+" ("+sibs[f]+")", c.Rel(f.Pos()), "tests for the byte-order mark",
+			fmt.Sprintf("%s is stored in a %s slot but never tests its text for the byte-order mark EF BB BF, which its siblings and the CSV reader strip: the mark stays in the first field name (or first cell)", nm, sibs[f]))
+	}
+	r.Floor("R01.9", "batch getters of the CSV-lite and TSV readers", len(names), 4)
 }
